@@ -21,9 +21,19 @@ ASSUMPTIONS = [
     "G3 twin residue: every textual difference between sync/async twins is in the reviewed benign list (harness/facts/twins_benign.json)",
 ]
 TRUSTED_EXTRA = ["fact translator harness/facts/twins.py (python ast) regenerates coq/generated/Facts_twins.v from /repo on every run"]
+from ..facts import effects as _effects  # noqa: E402
+_FX = _effects.obligation("C06")
+EXTRA_PROOF_FILES.append(_FX[0])
+TRUSTED_EXTRA.append(_FX[1])
 
 
 def regenerate_facts():
+    ok1, msg1 = _regenerate_twin_facts()
+    ok2, msg2 = _FX[2]()
+    return ok1 and ok2, "; ".join(m for m in (msg1, msg2) if m)
+
+
+def _regenerate_twin_facts():
     try:
         d = twins.emit(os.environ.get("KV_REPO", "/repo"), os.path.join(ROOT, "coq", "generated", "Facts_twins.v"))
         if d["unclassified"]:
